@@ -176,13 +176,17 @@ def sliceS (k : Lena.C17.SliceKind) (s : Strm α) : Strm α :=
      | some b => if max a b ≤ s.vals.length then none else s.term
      | none => s.term⟩
   | .negative a b st =>
-    let mode := negMode a b s.vals.length
-    match mode, s.term with
-    | .drainFirst, some e => .fail e
-    | _, t =>
-      match Lena.C17.runNegative a b s.vals with
-      | .indexError => .fail .indexError
-      | .ok ys => ⟨if st = 1 then ys else Lena.C17.everyNth st ys, if mode = .early then none else t⟩
+    match Lena.C17.runNegative a b s.vals with
+    | .indexError => .fail .indexError
+    | .ok ys =>
+      let out := if st = 1 then ys else Lena.C17.everyNth st ys
+      match negMode a b s.vals.length with
+      | .early => ⟨out, none⟩
+      | .lazyTail => ⟨out, s.term⟩
+      | .drainFirst =>
+        match s.term with
+        | some e => .fail e
+        | none => ⟨out, none⟩
 
 /-! ## `Split.run`, every branch of type "sequence" -/
 
